@@ -565,39 +565,46 @@ def clause4(chk):
     stats = {}
     for o in outs:
         x, n, key = o["family"], o["n"], o["key"]
-        tol = (K.TOL_ADAMS if K.is_adams("SIS_" + x) else K.TOL_LIMIT) * n
-        for (mode, seeds, rho, d, errs, nontrivial) in o["rows"]:
+        tol = (K.TOL_PAIR_ADAMS if K.is_adams("SIS_" + x) else K.TOL_PAIR) * n
+        for row in o["rows"]:
+            mode, seeds, rho, d = row["mode"], row["seeds"], row["rho"], row["dev"]
             chk.cov["evaluations"] += 2
-            s = stats.setdefault((x, mode), {"n": 0, "worst": 0.0, "bad": 0})
+            s = stats.setdefault((x, mode), {"n": 0, "worst": 0.0, "bad": 0, "undefined": 0, "truncated": 0})
             s["n"] += 1
             rp = {"clause": 4, "family": x, "n": n, "key": key, "scenario": (mode, seeds, (), rho), "deviation": d, "tolerance": tol}
-            if errs and "_" in errs:
-                if errs["_"] == "nonfinite-limit":
-                    s["bad"] += 1
-                    chk.violation("SIS_%s vs SIR_%s|gamma=0: non-finite output (finite with gamma>0)|%s" % (x, x, mode),
-                                  "gamma=0, tau=%g, %s on graph w=%r seeds=%r rho=%r: nan/inf, finite with gamma=1" % (key[2] * RATE_UNIT, mode, key[0], seeds, rho), rp)
-                else:
-                    s["undefined"] = s.get("undefined", 0) + 1
-                continue
-            if errs:
+            if row["errs"]:
                 s["bad"] += 1
-                for nm, msg in sorted(errs.items()):
+                for nm, msg in sorted(row["errs"].items()):
                     chk.violation("%s|raises %s|%s" % (nm, msg.split(":")[0], mode.split("/")[0]),
                                   "%s(tau=%g, gamma=0, %s) raised %s on graph w=%r seeds=%r rho=%r; the SIS/SIR comparison of the family cannot be made"
                                   % (nm, key[2] * RATE_UNIT, mode, msg, key[0], seeds, rho), rp)
                 continue
-            if nontrivial:
+            if row["nonfinite"] == "generic":
+                s["undefined"] += 1
+                continue
+            if row["nonfinite"] == "limit":
+                s["bad"] += 1
+                chk.violation("SIS_%s vs SIR_%s|gamma=0: non-finite output (finite with gamma>0)|%s" % (x, x, mode),
+                              "gamma=0, tau=%g, %s on graph w=%r seeds=%r rho=%r: nan/inf, finite with gamma=1" % (key[2] * RATE_UNIT, mode, key[0], seeds, rho), rp)
+                continue
+            if row["truncated"]:
+                s["truncated"] += 1
+            if row["nontrivial"]:
                 chk.cov["distinct_nontrivial"] += 1
             if d > tol:
                 s["bad"] += 1
                 chk.violation("SIS_%s vs SIR_%s|gamma=0: S(t) differs|%s" % (x, x, mode),
-                              "gamma=0, tau=%g, %s on graph w=%r g=%r seeds=%r rho=%r: max|S_SIS - S_SIR| = %.3g (tolerance %.1g)"
-                              % (key[2] * RATE_UNIT, mode, key[0], key[1], seeds, rho, d, tol), rp)
+                              "gamma=0, tau=%g, %s on graph w=%r g=%r seeds=%r rho=%r: max|S_SIS - S_SIR| = %.3g over the first %d report times (tolerance %.1g)"
+                              % (key[2] * RATE_UNIT, mode, key[0], key[1], seeds, rho, d, row["compared"], tol), rp)
             else:
                 s["worst"] = max(s["worst"], d)
+    trunc = sum(s["truncated"] for s in stats.values())
+    if trunc:
+        chk.note("clause 4: in %d scenario(s) S(t) reaches %g*N within the horizon (the closures divide by [S]; beyond that singular point the "
+                 "integrator output is no solution of either model); S_SIS and S_SIR are compared up to there" % (trunc, K.S_FLOOR))
     for (x, mode), s in sorted(stats.items()):
-        chk.part("clause4 SIS_%s vs SIR_%s [%s]" % (x, x, mode), scenarios=s["n"], failing=s["bad"], undefined_for_the_closure=s.get("undefined", 0),
-                 worst_passing_deviation=s["worst"])
+        chk.part("clause4 SIS_%s vs SIR_%s [%s]" % (x, x, mode), scenarios=s["n"], failing=s["bad"], undefined_for_the_closure=s["undefined"],
+                 compared_up_to_singular_point=s["truncated"], worst_passing_deviation=s["worst"])
     if tasks:
         t0 = tasks[len(tasks) // 3]
         chk.sample({"clause": 4, "family": t0["family"], "graph_w": t0["key"][0], "tau": t0["key"][2] * RATE_UNIT, "gamma": 0.0,
@@ -636,6 +643,9 @@ def clause5(chk):
             continue
         if abs(o["ar_default"] - o["ar"]) > K.TOL_FINAL:
             slow += 1
+        if "its_reduced" in o:
+            chk.note("clause 5: %s raised %s (theta underflows and the k=0 term of psihatPrime overflows); verdict taken with number_its=%d"
+                     % (e, o["its_reduced"], o["its"]))
         dev = abs(o["ar"] - o["limit"])
         if o["limit"] > 1e-3:
             chk.cov["distinct_nontrivial"] += 1
@@ -709,8 +719,8 @@ def replay(path):
         t = {"family": r["family"], "n": r["n"], "key": _key(r["key"]), "scenarios": [_scen(r["scenario"])]}
         o = K.c4_task(t)
         print(o)
-        tol = (K.TOL_ADAMS if K.is_adams("SIS_" + r["family"]) else K.TOL_LIMIT) * r["n"]
-        bad = any(row[4] or row[3] > tol for row in o["rows"])
+        tol = (K.TOL_PAIR_ADAMS if K.is_adams("SIS_" + r["family"]) else K.TOL_PAIR) * r["n"]
+        bad = any(row["errs"] or row["nonfinite"] == "limit" or (row["nonfinite"] is None and row["dev"] > tol) for row in o["rows"])
     elif cl == 5:
         o = K.c5_task(r["scenario"])
         print(o)
@@ -758,7 +768,10 @@ def main(argv=None):
         clause5(chk)
     chk.assumptions += [
         "TLC, scipy.linalg.expm and float arithmetic are trusted; the generator matrix is assembled from TLC's printed transitions with one rate numerator = %g per unit time" % RATE_UNIT,
-        "tolerances: clause 1 %g absolute on S,I,R; clauses 3/4 %g*N (%g*N for SIS_pair_based* and SIS_heterogeneous_pairwise*, which integrate with vode/adams at its default rtol=1e-6 instead of odeint); clause 5 %g on R/N" % (K.TOL_TREE, K.TOL_LIMIT, K.TOL_ADAMS, K.TOL_FINAL),
+        "tolerances: clause 1 %g absolute on S,I,R; clause 3 %g*N (%g*N for SIS_pair_based* and SIS_heterogeneous_pairwise*, which integrate with vode/adams at its default rtol=1e-6 instead of odeint); "
+        "clause 4 %g*N (%g*N for the same two families) because two independently integrated solutions are compared through an exponentially growing phase "
+        "(measured worst 1.1e-6 / 3.1e-6 on 3-4 nodes; a wrong closure shows at 1e-2); clause 5 %g on R/N" % (K.TOL_TREE, K.TOL_LIMIT, K.TOL_ADAMS, K.TOL_PAIR, K.TOL_PAIR_ADAMS, K.TOL_FINAL),
+        "clause 4 compares S_SIS and S_SIR on the prefix of the report grid where both exceed %g*N: the pairwise/effective-degree closures divide by [S] and with gamma=0 some inputs drive S to 0 in finite time, beyond which the integrator output solves neither model" % K.S_FLOOR,
         "clause 3 reads 'S constant' for the SIR models; for SIS models the specification's chain returns a recovering node to S, so S(t) = S(0) + I(0) - I(t) is what is compared; unweighted calls are compared with the entry point's own row 0 (row 0 itself is C06)",
         "clause 5 (Attack_rate_* vs long-time EBCM / EBCM_discrete) is a NON-SPEC side check: a plain numeric comparison of a fixed-point iteration (number_its=%d) with R(T)/N at a horizon where I(T) < 1e-9 N; the specifications contribute nothing to it beyond the scenario family" % K.ITS,
         "base functions taking numeric initial conditions are called with the arguments their own *_from_graph wrapper passes (recorded at the public function boundary), not with independently derived initial conditions",
